@@ -46,6 +46,10 @@ ASSUMPTIONS = [
     "ArcEdgeBase.is_valid drops an arc when |(a - p) x (b - p)| <= 1e-7 in absolute terms: sector angles start at 0.1 "
     "(R = 0.1 gives 1.2e-6) and the 3-point cell keeps that product >= 1e-5 by raising the radius; the dropped class is "
     "generated in the witness cell C08/witness/arc3/shallow-small; the band in between is not explored",
+    "histories (query/write, rigid move of the end vertices, query/write again): moves are translations up to 3 R per "
+    "step and rotations about the arc's own axis direction through a point within 5 R of the centre, so an angle/axis "
+    "specification stays valid; edge data that holds points (Origin) is moved by the same in-place calls; the "
+    "expected circle is moved by vf.refmodel's Rodrigues maps",
     "chord bound: exact kinds 1e-12 relative; curve-snapped edges 1e-6 relative (end parameters come from an "
     "iterative closest-point search, measured 1e-8)",
 ]
@@ -94,6 +98,32 @@ class Arc:
         return self.R * abs(self.theta)
 
 
+class MovedArc:
+    """the same circle after the rigid moves of the case: translations and rotations about the arc's own axis direction
+    through a general point (so the angle/axis specification stays valid); built with vf.refmodel (Rodrigues)"""
+
+    def __init__(self, arc: Arc, moves):
+        from vf.refmodel import apply, m_rotate, m_translate
+
+        M = np.eye(4)
+        self.steps = []
+        for mv in moves:
+            d = arc.R * np.array(mv["d"], float)
+            qd = np.array(mv["q_dir"], float)
+            q = arc.c + arc.R * mv["q_s"] * qd / np.linalg.norm(qd)
+            self.steps.append((d, mv["beta"], q))
+            M = m_rotate(mv["beta"], arc.k, q) @ m_translate(d) @ M
+        self.R, self.k, self.theta, self.length = arc.R, arc.k, arc.theta, arc.length
+        self.p1, self.p2, self.mid, self.c = (apply(M, x) for x in (arc.p1, arc.p2, arc.mid, arc.c))
+
+    def move(self, vertices, datas) -> None:
+        """the library's in-place API on mesh/edge vertices and on the edge data that holds points"""
+        for d, beta, q in self.steps:
+            for obj in [*vertices, *datas]:
+                obj.translate(d)
+                obj.rotate(beta, self.k, q)
+
+
 def facts_of(case, arc: Arc) -> Dict[str, Any]:
     return {"theta": arc.theta, "reflex": abs(arc.theta) > math.pi, "negative": arc.theta < 0, "R": arc.R,
             "axis": arc.k.tolist(), "semicircle": abs(abs(arc.theta) - math.pi) < 1e-9}
@@ -133,6 +163,21 @@ def cmp_length(got: float, want: float, what: str, facts) -> None:
 # checks
 
 
+def requery(case, arc: Arc, edge, name: str, facts, ctx: Ctx) -> None:
+    """history: the edge has been queried; its end vertices (and the data that holds points) move rigidly; the same
+    queries must now describe the moved circle"""
+    if not case.get("moves"):
+        return
+    moved = MovedArc(arc, case["moves"])
+    must(lambda: moved.move([edge.vertex_1, edge.vertex_2], [edge.data]), "moving the end vertices", facts)
+    facts = dict(facts, after_move=True)
+    third = must(lambda: edge.third_point.position, name + ".third_point after the move", facts)
+    cmp_point(third, moved.mid, moved, name + ".third_point after the move", facts)
+    cmp_length(must(lambda: float(edge.length), name + ".length after the move", facts), moved.length,
+               name + ".length after the move", facts)
+    ctx.label("moved-and-requeried")
+
+
 def check_angle(case, ctx: Ctx) -> None:
     arc = Arc(case)
     facts = facts_of(case, arc)
@@ -144,6 +189,7 @@ def check_angle(case, ctx: Ctx) -> None:
     third = must(lambda: edge.third_point.position, "AngleEdge.third_point", facts)
     cmp_point(third, arc.mid, arc, "AngleEdge.third_point", facts)
     cmp_length(must(lambda: float(edge.length), "AngleEdge.length", facts), arc.length, "AngleEdge.length", facts)
+    requery(case, arc, edge, "AngleEdge", facts, ctx)
     label(case, arc, ctx)
 
 
@@ -156,6 +202,7 @@ def check_origin(case, ctx: Ctx) -> None:
     third = must(lambda: edge.third_point.position, "OriginEdge.third_point", facts)
     cmp_point(third, arc.mid, arc, "OriginEdge.third_point", facts)
     cmp_length(must(lambda: float(edge.length), "OriginEdge.length", facts), arc.length, "OriginEdge.length", facts)
+    requery(case, arc, edge, "OriginEdge", facts, ctx)
     label(case, arc, ctx)
 
 
@@ -205,6 +252,19 @@ def check_file(case, ctx: Ctx) -> None:
         op.chop(ax, count=1)
     mesh = cb.Mesh()
     mesh.add(op)
+    judge_file(mesh, arc, facts)
+    if case.get("moves"):
+        # history: written once, every mesh vertex moves rigidly (as an optimizer or a user would move them), written again
+        moved = MovedArc(arc, case["moves"])
+        must(lambda: moved.move(mesh.vertices, [e.data for e in mesh.edge_list.edges]), "moving the mesh vertices", facts)
+        judge_file(mesh, moved, dict(facts, after_move=True))
+        ctx.label("moved-and-rewritten")
+    label(case, arc, ctx)
+
+
+def judge_file(mesh, arc, facts) -> None:
+    """arc: Arc or MovedArc (p1, p2, mid, c, R, length)"""
+    p1, p2 = arc.p1, arc.p2
     try:
         text, _ = lt.write_text(mesh)
         bmd = lt.parse(text)
@@ -227,8 +287,9 @@ def check_file(case, ctx: Ctx) -> None:
     err = float(np.linalg.norm(np.array(e.payload) - arc.mid))
     if err > tol:
         tag = "mid-point-antipode" if np.linalg.norm(np.array(e.payload) - (2 * arc.c - arc.mid)) <= tol else "mid-point"
-        raise Violation(tag, f"written arc point {list(e.payload)}, analytic middle {arc.mid.tolist()}", **facts)
-    label(case, arc, ctx)
+        raise Violation(tag, f"written arc point {list(e.payload)}, analytic middle {np.asarray(arc.mid).tolist()}", **facts)
+    cmp_length(must(lambda: float(mesh.edge_list.edges[0].length), "Edge.length", facts), arc.length,
+               "Edge.length of the written arc", facts)
 
 
 def check_chord(case, ctx: Ctx) -> None:
@@ -274,6 +335,13 @@ SEMI = st.tuples(st.sampled_from([0.0, 0.0, 1e-15, -1e-15, 1e-13, -1e-13]), st.s
     lambda t: (math.pi + t[0]) * t[1])
 
 
+# rigid move in units of the radius: translation d, rotation beta about the arc's axis through c + q_s R q_dir
+_move = st.fixed_dictionaries({
+    "d": st.tuples(st.floats(-3, 3), st.floats(-3, 3), st.floats(-3, 3)).map(list),
+    "beta": st.one_of(st.just(0.0), st.floats(-math.pi, math.pi)),
+    "q_dir": _vec, "q_s": st.floats(0.0, 5.0)})
+
+
 @st.composite
 def circle_case(draw, theta, **extra):
     case = {"R_exp": draw(st.floats(-1.0, 2.0)), "axis": draw(_axis), "centre_dir": draw(_vec),
@@ -281,6 +349,7 @@ def circle_case(draw, theta, **extra):
             "theta": draw(theta), "axis_scale": draw(st.sampled_from([1.0, 1.0, 3.0, 0.2])), "flip": draw(st.booleans())}
     for k, v in extra.items():
         case[k] = draw(v)
+    case["moves"] = draw(st.lists(_move, min_size=0, max_size=2))
     return case
 
 
